@@ -25,7 +25,10 @@ def run_case(case, ctx):
     cfg = CFG.from_json(case["g"])
     lexkind = case["lex"]
     lex = Lexicon(cfg.terms)
-    text_g = cfg.to_parglare()
+    prios = case.get("prios") or []
+    tmeta = {n: str(prios[i % len(prios)]) for i, n in enumerate(cfg.term_names)
+             if prios and prios[i % len(prios)] != 10} if lexkind == "L0" else None
+    text_g = cfg.to_parglare(term_meta=tmeta)
     try:
         grammar = pgl.Grammar.from_string(text_g)
         parser = pgl.GLRParser(grammar, tables=pgl.TABLES[case["table"]])
@@ -142,6 +145,8 @@ def _case(gstrat, lex):
         else:
             max_len = 5
         return {"g": g, "table": draw(st.sampled_from(["LALR", "SLR"])), "lex": lex,
+                # terminal priorities are irrelevant without lexical overlap
+                "prios": draw(st.lists(st.sampled_from([10, 10, 10, 5, 15]), min_size=1, max_size=3)),
                 "fill": draw(FILL), "max_len": max_len}
     return c()
 
